@@ -134,54 +134,8 @@ theorem C16_qu_reprocessed (s : State σ) (d : Bytes) (a : Addr) (p : Nat) (now 
 
 `respondEmits q` is what `handle_assembled_query` does for the answer sets in `q`. -/
 
-/-- every answer to every QU question was multicast within a quarter of its TTL -/
-def QueryIn.allRecent (q : QueryIn) : Bool := q.strats.all (fun st => st.answers.all (fun a => a.recent q.now))
-
-/-- every question that has answers is a QU question and the query came from the mDNS port -/
-def QueryIn.pureQU (q : QueryIn) : Bool := !Gen.Listener.ucast_source q.port && q.strats.all (·.unique)
-
 /-- full-strength statement: a (multicast-source, all-QU) query is answered by unicast only -/
 def C16_qu_full : Prop := ∀ q : QueryIn, q.pureQU = true → (respondEmits q).all Emit.isUnicast = true
-
-theorem addQU_recent (q : QueryIn) (r : Routed) (a : Ans) (h : a.recent q.now = true)
-    (hr : r.mcastNow = [] ∧ r.mcastAgg = [] ∧ r.mcastAggLast = []) :
-    (addQU q r a).mcastNow = [] ∧ (addQU q r a).mcastAgg = [] ∧ (addQU q r a).mcastAggLast = [] := by
-  unfold addQU
-  simp only [h, Bool.not_true, Bool.false_eq_true, ↓reduceIte]
-  split <;> split <;> simp [hr]
-
-theorem foldl_addQU_recent (q : QueryIn) (l : List Ans) :
-    ∀ r : Routed, l.all (fun a => a.recent q.now) = true →
-      (r.mcastNow = [] ∧ r.mcastAgg = [] ∧ r.mcastAggLast = []) →
-      ((l.foldl (addQU q) r).mcastNow = [] ∧ (l.foldl (addQU q) r).mcastAgg = [] ∧ (l.foldl (addQU q) r).mcastAggLast = []) := by
-  induction l with
-  | nil => intro r _ hr; exact hr
-  | cons a rest ih =>
-    intro r hall hr
-    simp only [List.all_cons, Bool.and_eq_true] at hall
-    exact ih _ hall.2 (addQU_recent q r a hall.1 hr)
-
-theorem route_recent (q : QueryIn) (hp : q.pureQU = true) (hr : q.allRecent = true) :
-    (route q).mcastNow = [] ∧ (route q).mcastAgg = [] ∧ (route q).mcastAggLast = [] := by
-  simp only [QueryIn.pureQU, Bool.and_eq_true, Bool.not_eq_true', List.all_eq_true] at hp
-  simp only [QueryIn.allRecent, List.all_eq_true] at hr
-  unfold route
-  suffices h : ∀ (l : List Strat) (r : Routed), (∀ st ∈ l, st.unique = true) →
-      (∀ st ∈ l, st.answers.all (fun a => a.recent q.now) = true) →
-      (r.mcastNow = [] ∧ r.mcastAgg = [] ∧ r.mcastAggLast = []) →
-      ((l.foldl (routeStrat q) r).mcastNow = [] ∧ (l.foldl (routeStrat q) r).mcastAgg = [] ∧
-        (l.foldl (routeStrat q) r).mcastAggLast = []) by
-    exact h q.strats {} hp.2 (fun st hst => by simpa [List.all_eq_true] using hr st hst) ⟨rfl, rfl, rfl⟩
-  intro l
-  induction l with
-  | nil => intro r _ _ h; exact h
-  | cons st rest ih =>
-    intro r hu ha h0
-    simp only [List.foldl_cons]
-    apply ih _ (fun x hx => hu x (by simp [hx])) (fun x hx => ha x (by simp [hx]))
-    have hst := hu st (by simp)
-    simp only [routeStrat, hp.1, hst, Bool.not_false, Bool.and_self, ↓reduceIte]
-    exact foldl_addQU_recent q st.answers r (ha st (by simp)) h0
 
 /-- **C16, the QU exception, partial.**  A query from the mDNS port all of whose answered questions are QU
 emits nothing but (at most one) unicast datagram — *provided every answer was multicast within a quarter of
